@@ -651,6 +651,8 @@ fn expand_brace(tokens: &mut types::Tokens) {
     }
 }
 
+const MAX_RANGE_ITEMS: i64 = 1_000_000;
+
 fn expand_brace_range(tokens: &mut types::Tokens) {
     let re;
     if let Ok(x) = Regex::new(r#"\{(-?[0-9]+)\.\.(-?[0-9]+)(\.\.)?([0-9]+)?\}"#) {
@@ -701,6 +703,15 @@ fn expand_brace_range(tokens: &mut types::Tokens) {
         };
         if incr <= 1 {
             incr = 1;
+        }
+
+        // a sequence of this size would exhaust the memory before anything
+        // could be done with it
+        let count = (i64::from(end) - i64::from(start)).abs() / i64::from(incr) + 1;
+        if count > MAX_RANGE_ITEMS {
+            println_stderr!("cicada: brace range of {} items is too large", count);
+            idx += 1;
+            continue;
         }
 
         // keep the text around the braces, e.g. `a{1..3}b` -> a1b a2b a3b
